@@ -428,8 +428,8 @@ pub struct Gui<'a> {
     pub debug_on: bool,
     /// who is blamed if the engine's position differs from the model at the next idle point
     pub blame_idle: (&'static str, &'static str),
-    /// per search: (root FEN, last reported score as text, bestmove)
-    pub summaries: Vec<(String, String, String)>,
+    /// per search: (root FEN, last reported score as text, bestmove, depth limit of the go)
+    pub summaries: Vec<(String, String, String, u64)>,
     /// a `position` line reached the engine while it was searching: what it holds afterwards is not
     /// specified (the shipped code ignores it) until the next position command given while idle
     pub cur_uncertain: bool,
@@ -827,7 +827,7 @@ impl<'a> Gui<'a> {
         if let Some(b) = &win.best {
             self.last_best = Some(b.clone());
             let score = win.infos.iter().rev().find_map(|i| i.score_mate.map(|m| format!("mate {}", m)).or(i.score_cp.map(|c| format!("cp {}", c)))).unwrap_or_else(|| "none".into());
-            self.summaries.push((root.to_fen(), score, b.0.clone()));
+            self.summaries.push((root.to_fen(), score, b.0.clone(), c.go.depth.unwrap_or(0)));
         }
         if !self.sess.over {
             for l in &c.post_lines {
@@ -934,6 +934,38 @@ impl<'a> Gui<'a> {
                 if (1..=2).contains(&d) && c.events.is_empty() && !c.stop_before_dequeue && c.go.movetime.is_none() && c.go.wtime.is_none() && c.go.btime.is_none() {
                     self.check_draw_rules(root, rg, d as u32, win, &ctx)?;
                     self.res.bump("probe.follow_up_with_repetition_history");
+                }
+            }
+        }
+        // ---- C08 mate clause: a forced mate in N <= 3 must be announced as `mate N` by a depth 2N-1 search
+        if matches!(self.focus.as_str(), "C08" | "C11") && !legal.is_empty() && piece_count(root) <= 8 {
+            if let Some(d) = c.go.depth {
+                let plain = c.events.is_empty() && !c.stop_before_dequeue && c.go.movetime.is_none() && c.go.wtime.is_none() && c.go.btime.is_none() && rg.searchmoves.is_empty();
+                if plain && d % 2 == 1 && d <= 5 && !self.cur.has_repeated_position() && root.half + (d as u32) < 90 {
+                    let n = (d as u32 + 1) / 2;
+                    let firsts = refchess::search::mate_in(root, n);
+                    if !firsts.is_empty() {
+                        self.res.bump(&format!("probe.forced_mate_in_{}_cycle", n));
+                        let last = win.infos.iter().rev().find(|i| i.score_cp.is_some() || i.score_mate.is_some());
+                        let announced = last.and_then(|i| i.score_mate);
+                        if announced != Some(n as i64) {
+                            return Err(viol("C08", "forced_mate_not_announced", format!("{}: the reference proves mate in {} but the depth-{} search reports {:?}", ctx, n, d, last.map(|i| (i.score_cp, i.score_mate)))).with("n", json!(n)));
+                        }
+                        if !Mv::parse(&best).map_or(false, |m| firsts.contains(&m)) {
+                            return Err(viol("C08", "bestmove_does_not_keep_the_mate", format!("{}: bestmove {} does not keep mate in {} (mating first moves: {:?})", ctx, best, n, firsts.iter().map(|m| m.uci()).collect::<Vec<_>>())).with("n", json!(n)));
+                        }
+                        if let Some(pv) = win.infos.iter().rev().find_map(|i| i.pv.clone()) {
+                            let mut p = root.clone();
+                            for m in &pv {
+                                if let Some(x) = Mv::parse(m) {
+                                    p = p.apply(&x);
+                                }
+                            }
+                            if pv.len() as u32 != 2 * n - 1 || !p.is_mate() {
+                                return Err(viol("C08", "mate_pv_not_a_mate", format!("{}: mate {} announced, pv {:?} has {} plies and ends in {}", ctx, n, pv, pv.len(), if p.is_mate() { "mate" } else { "no mate" })));
+                            }
+                        }
+                    }
                 }
             }
         }
@@ -1550,7 +1582,8 @@ pub fn gen_plan_exact(seed: u64, thorough: bool, pool: &[Pos], mates: &[(Pos, u3
         if ci > 0 && rng.chance(1, 3) {
             if let Some(prev) = cycles.last().cloned() {
                 let pd = prev.go.depth.unwrap_or(1);
-                let mut g = GoSpec::depth(if pd > 1 && rng.chance(2, 3) { 1 + rng.below(pd - 1) } else { 1 + rng.below(3) });
+                // (never deeper than 3: exact values and colour symmetry are only specified up to depth 3)
+                let mut g = GoSpec::depth(if pd > 1 && rng.chance(2, 3) { 1 + rng.below((pd - 1).min(3)) } else { 1 + rng.below(3) });
                 g.layout = rng.next_u64();
                 let pos = match rng.below(3) {
                     0 => PosSpec::Keep,
@@ -1722,7 +1755,7 @@ fn flip_plan(plan: &EnginePlan) -> EnginePlan {
 
 /// C11 twin mode: engine A plays the session, engine B the colour-flipped session.
 fn run_twin(plan: &EnginePlan, res: &mut RunResult) -> Result<(u64, u64, u64), V> {
-    let mut sums: Vec<Vec<(String, String, String)>> = Vec::new();
+    let mut sums: Vec<Vec<(String, String, String, u64)>> = Vec::new();
     let mut out = (0, 0, 0);
     for p in [plan.clone(), flip_plan(plan)] {
         let mut gui = Gui::start(&p.knobs, &p.focus, res)?;
@@ -1748,6 +1781,12 @@ fn run_twin(plan: &EnginePlan, res: &mut RunResult) -> Result<(u64, u64, u64), V
         }
         if a.1.starts_with("mate") {
             res.bump("probe.twin_mate_score");
+        }
+        // the property speaks of depth <= 3; deeper searches (the depth-5 mate cycles) are compared
+        // only where both replicas announce a mate (mate distance must be colour-symmetric)
+        if a.3 > 3 && !(a.1.starts_with("mate") && b.1.starts_with("mate")) {
+            res.bump("probe.twin_deeper_than_3_not_compared");
+            continue;
         }
         if a.1 != b.1 {
             return Err(viol("C11", "search_score_not_colour_symmetric", format!("position {} scores [{}] (bestmove {}), its colour-flipped twin {} scores [{}] (bestmove {})", a.0, a.1, a.2, b.0, b.1, b.2)).with("mate", json!(a.1.starts_with("mate") || b.1.starts_with("mate"))));
